@@ -21,6 +21,7 @@ use arrow::array::ArrayRef;
 use arrow::compute::cast;
 use arrow::datatypes::DataType;
 use datafusion_common::Result;
+use datafusion_common::utils::normalize_float_zero;
 
 use super::array_static_filter::ArrayStaticFilter;
 use super::primitive_filter::instantiate_primitive_filter;
@@ -28,6 +29,8 @@ use super::static_filter::StaticFilterRef;
 
 pub(super) fn instantiate_static_filter(in_array: ArrayRef) -> Result<StaticFilterRef> {
     let in_array = flatten_dictionary_haystack(in_array)?;
+    // `x IN (..)` must agree with `x = ..`, which treats -0.0 and +0.0 as equal
+    let in_array = normalize_float_zero(&in_array);
 
     if let Some(filter) = instantiate_primitive_filter(&in_array)? {
         return Ok(filter);
